@@ -120,6 +120,64 @@ func libToLib(rng *rand.Rand, call, pw string, how string) rec.Event {
 	return ev
 }
 
+// twoLogins: two stations are logged in to the same listener at the same time; each accepted connection carries its own
+// station's stream (and reports its own callsign).
+func twoLogins(rng *rand.Rand) rec.Event {
+	ev := rec.Event{"op": "Conn", "kind": "two-logins/one-listener", "call": "\"LA1AAA+LA2BBB\"", "established": false, "toAcceptorOK": false, "toDiallerOK": false, "remoteCallOK": false}
+	ln, err := telnet.Listen("127.0.0.1:0")
+	if err != nil {
+		ev["err"] = err.Error()
+		return ev
+	}
+	defer ln.Close()
+	type side struct {
+		call     string
+		d, a     net.Conn
+		up, down []byte
+	}
+	sides := []*side{{call: "LA1AAA"}, {call: "LA2BBB"}}
+	for _, s := range sides {
+		ch := make(chan net.Conn, 1)
+		go func() { c, _ := ln.Accept(); ch <- c }()
+		d, err := telnet.DialTimeout(ln.Addr().String(), s.call, "pw", 3*time.Second)
+		if err != nil {
+			ev["err"] = err.Error()
+			return ev
+		}
+		defer d.Close()
+		s.d = d
+		select {
+		case s.a = <-ch:
+		case <-time.After(3 * time.Second):
+		}
+		if s.a == nil {
+			ev["err"] = "Accept did not return for " + s.call
+			return ev
+		}
+		defer s.a.Close()
+		s.up, s.down = payloadOf(rng, 500+rng.Intn(500)), payloadOf(rng, 500+rng.Intn(500))
+	}
+	ev["established"] = true
+	// both stations talk only after both are logged in; the second one first
+	for i := len(sides) - 1; i >= 0; i-- {
+		s := sides[i]
+		go s.d.Write(s.up)
+		go s.a.Write(s.down)
+	}
+	okUp, okDown, okCall := true, true, true
+	for _, s := range sides {
+		okUp = okUp && bytes.Equal(readN(s.a, len(s.up), 2*time.Second), s.up)
+		okDown = okDown && bytes.Equal(readN(s.d, len(s.down), 2*time.Second), s.down)
+		rc := ""
+		if x, ok := s.a.(interface{ RemoteCall() string }); ok {
+			rc = x.RemoteCall()
+		}
+		okCall = okCall && rc == s.call
+	}
+	ev["toAcceptorOK"], ev["toDiallerOK"], ev["remoteCallOK"] = okUp, okDown, okCall
+	return ev
+}
+
 // rawToAccept: a raw TCP client segments the login and the payload as planned.
 func rawToAccept(rng *rand.Rand, call, pw string, plan []string, gaps bool) rec.Event {
 	ev := rec.Event{"op": "Conn", "kind": "raw-client/lib-accept", "plan": plan, "gaps": gaps, "call": fmt.Sprintf("%q", call), "established": false, "toAcceptorOK": false,
@@ -213,6 +271,10 @@ func rawToAccept(rng *rand.Rand, call, pw string, plan []string, gaps bool) rec.
 
 // dialAgainst: the library dials a raw TCP server with the given behaviour.
 func dialAgainst(rng *rand.Rand, behaviour string, deadline time.Duration, how string) rec.Event {
+	password := "pw"
+	if behaviour == "stops-reading" {
+		password = strings.Repeat("0123456789abcdef", 1<<20) // 16 MiB: more than the socket buffers hold
+	}
 	ev := rec.Event{"op": "Dial", "behaviour": behaviour, "how": how, "deadlineMs": int(deadline / time.Millisecond), "returned": false, "elapsedMs": 0, "gotConn": false, "streamOK": false}
 	ln, err := net.Listen("tcp", "127.0.0.1:0")
 	if err != nil {
@@ -254,6 +316,12 @@ func dialAgainst(rng *rand.Rand, behaviour string, deadline time.Duration, how s
 			<-stop
 		case "close-early":
 			c.Write([]byte("Callsign :\r"))
+		case "stops-reading":
+			// prompts, then never reads again but keeps the connection open: the dialler's (huge) reply cannot be written
+			c.Write([]byte("Callsign :\r"))
+			readLine()
+			c.Write([]byte("Password :\r"))
+			<-stop
 		case "trickle-banner", "trickle-callsign-prompt":
 			// CR terminated lines that never complete the login, one every 100 ms for as long as the dialler stays
 			line := "*** node banner, please wait\r"
@@ -321,7 +389,7 @@ func dialAgainst(rng *rand.Rand, behaviour string, deadline time.Duration, how s
 		var err error
 		switch how {
 		case "DialTimeout":
-			c, err = telnet.DialTimeout(ln.Addr().String(), "LA5NTA", "pw", deadline)
+			c, err = telnet.DialTimeout(ln.Addr().String(), "LA5NTA", password, deadline)
 		case "DialURLContext":
 			ctx, cancel := context.WithTimeout(context.Background(), deadline)
 			defer cancel()
@@ -338,7 +406,7 @@ func dialAgainst(rng *rand.Rand, behaviour string, deadline time.Duration, how s
 		default:
 			ctx, cancel := context.WithTimeout(context.Background(), deadline)
 			defer cancel()
-			c, err = telnet.DialContext(ctx, ln.Addr().String(), "LA5NTA", "pw")
+			c, err = telnet.DialContext(ctx, ln.Addr().String(), "LA5NTA", password)
 		}
 		ch <- res{c, err}
 	}()
@@ -351,6 +419,12 @@ func dialAgainst(rng *rand.Rand, behaviour string, deadline time.Duration, how s
 		}
 		if r.c != nil && r.err == nil {
 			ev["gotConn"] = true
+			if behaviour == "stops-reading" {
+				// the server never completes the login and sends nothing: only the time of the return is judged
+				ev["streamOK"], ev["got"], ev["want"] = true, 0, 0
+				r.c.Close()
+				break
+			}
 			got := readN(r.c, len(payload), 1500*time.Millisecond)
 			ev["streamOK"] = bytes.Equal(got, payload)
 			ev["got"], ev["want"] = len(got), len(payload)
@@ -385,7 +459,16 @@ func Main(args []string) int {
 		go func() {
 			defer wg.Done()
 			defer func() { <-sem }()
-			ev := f(rand.New(rand.NewSource(seed)))
+			// a scenario that does not finish within 30 s is an outcome (a hang), not a reason to wait for ever
+			evc := make(chan rec.Event, 1)
+			go func() { evc <- f(rand.New(rand.NewSource(seed))) }()
+			var ev rec.Event
+			select {
+			case ev = <-evc:
+			case <-time.After(30 * time.Second):
+				ev = rec.Event{"op": "Conn", "kind": "scenario did not finish", "call": "\"\"", "established": false, "toAcceptorOK": false, "toDiallerOK": false,
+					"remoteCallOK": false, "err": "the scenario hung for 30 s"}
+			}
 			mu.Lock()
 			w.Write(nil, []rec.Event{ev})
 			mu.Unlock()
@@ -414,6 +497,12 @@ func Main(args []string) int {
 			}
 		}
 	}
+	for _, how := range []string{"DialTimeout", "DialContext"} {
+		how := how
+		emit(func(r *rand.Rand) rec.Event { return dialAgainst(r, "stops-reading", 700*time.Millisecond, how) })
+	}
+	emit(func(r *rand.Rand) rec.Event { return twoLogins(r) })
+	emit(func(r *rand.Rand) rec.Event { return twoLogins(r) })
 	behaviours := []string{"trickle-banner", "trickle-callsign-prompt", "silent", "partial-prompt", "garbage", "close-early", "stall-after-callsign", "normal", "split-prompts", "coalesced-payload", "motd-first"}
 	dhows := []string{"DialContext", "DialTimeout", "DialURLContext", "dial_timeout"}
 	for bi, b := range behaviours {
